@@ -376,6 +376,13 @@ TARGETS = [
                   try_exprs={"self.content_infos.index(*index)": "infoAt index",
                              "self.get_cluster(content_info.cluster_index)": "getCluster (content_info).1",
                              "cluster.get_bytes(content_info.blob_index)": "getBytes cluster (content_info).2"})),
+    dict(name="rawLayoutParse", group="Parse", file="src/reader/directory_pack/raw_layout.rs", fn="parse",
+         after=r"impl Parsable for RawLayout",
+         cfg=dict(params=[("bs", "Bytes")], ret="List (Nat × SrcPropertyKind × List UInt8)", outcome=True,
+                  read_calls={"Count::parse": "takeLE bs 1", "RawProperty::parse": "rawPropertyParse bs"},
+                  funcs={"Vec::with_capacity": "[]", "Self": "{0}"},
+                  for_counts={"property_count": "property_count"},
+                  loop_vars=[("properties", "List (Nat × SrcPropertyKind × List UInt8)")])),
 ]
 
 
